@@ -1,7 +1,7 @@
 (* C17 executable model: http.parse_accept_header and datastructures.accept.
    Definitions only (proofs: C17/Proofs*.v).  Decision expressions and tables come from C17/Gen.v
    (regenerated from the source on every run); primitives from C17/Base.v. *)
-From Wz Require Import lib.Bytes C17.LibSort C17.Base C17.Gen.
+From Wz Require Import lib.Bytes lib.Utf8 C17.LibSort C17.Base C17.Gen.
 Open Scope N_scope.
 
 (* ================================================================ urllib.request.parse_http_list *)
@@ -119,18 +119,115 @@ Definition unquote_param (pv : str) : str :=
 Definition get_default (k : str) (o : list (str * str)) : str :=
   match assoc_get k o with Some v => v | None => [] end.   (* options.get(pk, "") *)
 
-(* keys ending in a star (RFC 2231 charset form, percent-decoding) are outside the model *)
-Fixpoint process_parts (parts options : list (str * str)) : result (list (str * str)) :=
+(* ---- RFC 2231: key*=charset'lang'percent-encoded-value *)
+Definition SQ : N := 39.
+Definition is_cs1 (c : N) : bool := in_ranges c charset_c1_class.
+Definition is_cslang (c : N) : bool := in_ranges c charset_lang_class.
+Definition is_cs2 (c : N) : bool := in_ranges c charset_c2_class.
+
+(* _charset_value_re.match(pv).groups() : neither class contains the apostrophe, so the greedy runs
+   are maximal and a shorter run cannot rescue a match *)
+Definition charset_match (v : str) : option (str * str) :=
+  match drop_while is_cs1 v with
+  | q1 :: r1 =>
+      if q1 =? SQ then
+        match drop_while is_cslang r1 with
+        | q2 :: r2 =>
+            if q2 =? SQ then
+              match take_while is_cs2 r2 with
+              | [] => None
+              | val => Some (take_while is_cs1 v, val)
+              end
+            else None
+        | [] => None
+        end
+      else None
+  | [] => None
+  end.
+
+(* urllib.parse._unquote_impl on an ASCII run: percent + two hex digits is a byte, any other
+   percent sign stays *)
+Fixpoint unquote_bytes (s : bytes) : bytes :=
+  match s with
+  | [] => []
+  | c :: r =>
+      if c =? PCT then
+        match r with
+        | h1 :: h2 :: r2 =>
+            if is_hex h1 && is_hex h2 then (16 * hex_val h1 + hex_val h2) :: unquote_bytes r2
+            else c :: unquote_bytes r
+        | _ => c :: unquote_bytes r
+        end
+      else c :: unquote_bytes r
+  end.
+
+Inductive codec := CsAscii | CsUtf8 | CsLatin1.
+Definition codec_of (name : str) : option codec :=
+  if list_eqb name [97; 115; 99; 105; 105] || list_eqb name [117; 115; 45; 97; 115; 99; 105; 105] then Some CsAscii
+  else if list_eqb name [117; 116; 102; 45; 56] then Some CsUtf8
+  else if list_eqb name [105; 115; 111; 45; 56; 56; 53; 57; 45; 49] then Some CsLatin1
+  else None.
+(* bytes.decode(encoding, errors=replace) *)
+Definition decode_replace (cs : codec) (b : bytes) : str :=
+  match cs with
+  | CsAscii => map (fun c => if c <? 128 then c else REPL) b
+  | CsUtf8 => utf8_decode_replace b
+  | CsLatin1 => b
+  end.
+(* urllib.parse.unquote(s, encoding=cs): maximal ASCII runs are percent-decoded and then decoded
+   with errors=replace; other characters are kept.  run = the pending ASCII run, reversed *)
+Fixpoint unquote_runs (cs : codec) (s : str) (run : bytes) : str :=
+  match s with
+  | [] => decode_replace cs (unquote_bytes (rev run))
+  | c :: r =>
+      if c <? 128 then unquote_runs cs r (c :: run)
+      else decode_replace cs (unquote_bytes (rev run)) ++ c :: unquote_runs cs r []
+  end.
+Definition url_unquote (cs : codec) (s : str) : str :=
+  if mem PCT s then unquote_runs cs s [] else s.
+
+Definition str_mem (s : str) (l : list str) : bool := existsb (list_eqb s) l.
+Definition truthy (o : option str) : bool := match o with Some (_ :: _) => true | _ => false end.
+
+(* the `if pk[-1] == star` block: (pv, encoding, continued_encoding) afterwards.  A name on the
+   source's allow list for which the model has no codec is reported as Unsupported *)
+Definition star_value (pv : str) (encoding continued : option str)
+  : result (str * option str * option str) :=
+  let '(enc1, pv1) := match charset_match pv with
+                      | Some (e, v) => (Some (lower e), v)
+                      | None => (encoding, pv)
+                      end in
+  let enc2 := if truthy enc1 then enc1 else continued in
+  match enc2 with
+  | Some e =>
+      if str_mem e options_charsets then
+        match codec_of e with
+        | Some cs => Ok (url_unquote cs pv1, enc2, enc2)
+        | None => Err Unsupported
+        end
+      else Ok (pv1, enc2, continued)
+  | None => Ok (pv1, enc2, continued)
+  end.
+
+(* the loop `for pk, pv in parts`; encoding and continued_encoding live across iterations *)
+Fixpoint process_parts (parts options : list (str * str)) (encoding continued : option str)
+  : result (list (str * str)) :=
   match parts with
   | [] => Ok options
   | (pk, pv) :: t =>
-      if last_is STAR pk then Err Unsupported
-      else
-        let pv1 := unquote_param pv in
-        match continuation_split pk with
-        | Some pk' => process_parts t (assoc_set pk' (get_default pk' options ++ pv1) options)
-        | None => process_parts t (assoc_set pk pv1 options)
-        end
+      let star := last_is STAR pk in
+      let pk1 := if star then removelast pk else pk in
+      match (if star then star_value pv encoding continued else Ok (pv, encoding, continued)) with
+      | Err e => Err e
+      | Ok (pv0, enc', cont') =>
+          if is_nil pv0 then Err IndexError       (* pv[0]; cannot happen, kept explicit *)
+          else
+            let pv1 := unquote_param pv0 in
+            match continuation_split pk1 with
+            | Some pk' => process_parts t (assoc_set pk' (get_default pk' options ++ pv1) options) enc' cont'
+            | None => process_parts t (assoc_set pk1 pv1 options) enc' cont'
+            end
+      end
   end.
 
 Definition parse_options_header (value : str) : result (str * list (str * str)) :=
@@ -140,7 +237,7 @@ Definition parse_options_header (value : str) : result (str * list (str * str)) 
   if is_nil v || is_nil rest then Ok (v, [])
   else match opt_loop (S (length rest)) rest [] with
        | Err e => Err e
-       | Ok parts => match process_parts parts [] with
+       | Ok parts => match process_parts parts [] None None with
                      | Err e => Err e
                      | Ok o => Ok (v, o)
                      end
@@ -356,3 +453,36 @@ Definition family_best_match (tbl : codec_table) (f : family) (acc : list item) 
   | FLang => lang_best_match acc offers
   | _ => best_match (spec_of f) (matches_of tbl f) acc offers
   end.
+
+(* ================================================================ Accept.values / to_header / __str__ *)
+Definition values (acc : list item) : list str := map fst acc.
+
+(* n as exactly w decimal digits (n < 10^w) *)
+Fixpoint fixed_digits (w : nat) (n : Z) : str :=
+  match w with
+  | O => []
+  | S w' => fixed_digits w' (n / 10) ++ [Z.to_N (48 + n mod 10)]
+  end.
+(* a quality 0 <= q < 1 with scale >= 1 written as 0.ddd *)
+Definition render_q (q : Qd) : str := [48; DOT] ++ fixed_digits (N.to_nat (snd q)) (fst q).
+
+(* repr(float): the shortest decimal, at least one fraction digit.  Faithful for 0 and for
+   1e-4 <= q < 1 (smaller floats print with an exponent; the sign of a negative zero is lost):
+   trailing zeros are dropped while more than one fraction digit remains; an integer gets .0 *)
+Fixpoint strip_zeros (fuel : nat) (n : Z) (k : N) : Qd :=
+  match fuel with
+  | O => (n, k)
+  | S f => if (1 <? k) && (n mod 10 =? 0)%Z then strip_zeros f (n / 10)%Z (k - 1) else (n, k)
+  end.
+Definition q_normalize (q : Qd) : Qd :=
+  if snd q =? 0 then ((fst q * 10)%Z, 1) else strip_zeros (N.to_nat (snd q)) (fst q) (snd q).
+Definition q_param : str := [SEMI; 113; EQS].   (* ;q= *)
+(* Accept.to_header: `if quality != 1: value = f"{value};q={quality}"`, joined by commas *)
+Definition to_header_item (it : item) : str :=
+  if qeqb (snd it) (q_of_Z 1%Z) then fst it else fst it ++ q_param ++ render_q (q_normalize (snd it)).
+Definition to_header (acc : list item) : str := join [COMMA] (map to_header_item acc).
+
+(* the serialiser of the round-trip theorem: the quality written as it stands (no zero stripping) *)
+Definition render_item (it : item) : str :=
+  if qeqb (snd it) (q_of_Z 1%Z) then fst it else fst it ++ q_param ++ render_q (snd it).
+Definition render_header (items : list item) : str := join [COMMA] (map render_item items).
